@@ -280,4 +280,113 @@ theorem restored_join_is_plain (sp : Spec) (w : World) (c : Cmd) (k : JoinKind) 
   have h2 : (w.wf == St.PAUSED) = false := by rw [hw]; decide
   exact ⟨by simp only [dispatchOneX, h1, h2, hc, Bool.false_eq_true, if_false, if_true], rfl⟩
 
+/-! ### C10: no creation while PAUSED, engine commands included -/
+
+/-- `Task.complete` while the workflow is PAUSED: recorded, nothing dispatched, no execution created -/
+theorem completeTaskX_paused (sp : Spec) (w : World) (r : TaskRow) (s : St) (hw : w.wf = .PAUSED) :
+    ids (completeTaskX sp w r s) = ids w ∧ (completeTaskX sp w r s).wf = .PAUSED := by
+  have hp : isPaused w.wf = true := by rw [hw]; decide
+  unfold completeTaskX
+  split
+  · exact ⟨by unfold ids; rw [(checkAffected_tasks sp w _).1], by rw [(checkAffected_tasks sp w _).2]; exact hw⟩
+  · simp only [hp, if_true]
+    exact ⟨by unfold ids; rw [(checkAffected_tasks sp _ _).1]; simp [setTask_ids],
+           by rw [(checkAffected_tasks sp _ _).2]; exact hw⟩
+
+/-- C10 "pause creates no new tasks", engine commands included: while the workflow is PAUSED no event but
+    `resume` creates a task execution - results are recorded, commands go to the backlog. -/
+theorem no_creation_while_pausedX (sp : Spec) (w : World) (ev : Event) (hw : w.wf = .PAUSED)
+    (hev : ∀ x, ev = x → x ≠ .resume) : ids (stepX sp w ev) = ids w := by
+  have hp : isPaused w.wf = true := by rw [hw]; decide
+  have key : ∀ (ts : List TaskRow) (p : List Item) (r : TaskRow) (s : St),
+      ids (completeTaskX sp { w with tasks := ts, pending := p } r s) = ids { w with tasks := ts, pending := p } :=
+    fun ts p r s => (completeTaskX_paused sp { w with tasks := ts, pending := p } r s hw).1
+  cases ev with
+  | resume => exact absurd rfl (hev _ rfl)
+  | start => simp only [stepX]; split <;> first | rfl | (rename_i h; rw [hw] at h; exact absurd h (by decide))
+  | pause => rfl
+  | stop t => rfl
+  | execute t ok => simp only [stepX]; split <;> rfl
+  | deliver it =>
+    simp only [stepX]
+    split
+    · rfl
+    · cases it with
+      | postStartTask t f => rfl
+      | postRunAction t => rfl
+      | runAction t => rfl
+      | postCheck =>
+        simp only
+        rw [checkAndComplete_inert _ (by simp [isPausedOrCompleted, hp])]
+        rfl
+      | postSchedRefresh t => simp only; split <;> rfl
+      | rpcStartTask t firstRun =>
+        simp only
+        split
+        · rfl
+        · split
+          · split
+            · simp [ids, setTask_ids]
+            · split
+              · split <;> rfl
+              · unfold ids; rw [(checkAffected_tasks sp _ t).1]
+          · split
+            · rfl
+            · split
+              · rfl
+              · split
+                · rfl
+                · simp [ids, setTask_ids]
+      | rpcResult t ok =>
+        simp only
+        split
+        · rfl
+        · exact key w.tasks _ _ _
+      | jobRefresh t =>
+        simp only
+        split
+        · rfl
+        · split
+          · rfl
+          · split
+            · rfl
+            · split
+              · rfl
+              · split
+                · rfl
+                · split
+                  · split <;> simp [ids, setTask_ids]
+                  · split
+                    · rw [key]
+                      simp [ids, setTask_ids]
+                    · simp [ids, setTask_ids]
+
+/-! non-vacuity: the seeded scenario (corpus/core/backlog_after_stop.json) -/
+
+/-- a: on-success: [pause, x];  b;  x -/
+def bSpec : Spec :=
+  { graph := { tasks := [⟨"a", none, ["pause", "x"], [], [], []⟩, ⟨"b", none, [], [], [], []⟩, ⟨"x", none, [], [], [], []⟩],
+               defaults := none },
+    live := [⟨"a", ["pause", "x"], [], []⟩, ⟨"b", [], [], []⟩, ⟨"x", [], [], []⟩] }
+
+/-- a completes (pause command: PAUSED, x saved to the backlog), b's result still in flight -/
+def bPaused : World :=
+  runX bSpec [.start, .deliver (.postStartTask ("b", 0) true), .deliver (.postStartTask ("a", 0) true),
+    .deliver (.rpcStartTask ("b", 0) true), .deliver (.rpcStartTask ("a", 0) true),
+    .deliver (.postRunAction ("b", 0)), .deliver (.postRunAction ("a", 0)),
+    .execute ("b", 0) true, .execute ("a", 0) true, .deliver (.rpcResult ("a", 0) true)]
+
+/-- `pause_command_saves_rest` happened: PAUSED, x in the backlog, no execution of x -/
+example : bPaused.wf = .PAUSED ∧ bPaused.backlog.map (·.target) = ["x"] ∧ ids bPaused = [("b", 0), ("a", 0)] ∧
+    bPaused.pending = [.rpcResult ("b", 0) true] := by decide +kernel
+
+/-- stop ERROR while PAUSED, then the late result of b: the backlog is polled and DROPPED, x is never created
+    (`no_dispatch_into_completed`); the seeded change C11-r2 creates x here -/
+example : let w := stepX bSpec (stepX bSpec bPaused (.stop .ERROR)) (.deliver (.rpcResult ("b", 0) true))
+    w.wf = .ERROR ∧ ids w = [("b", 0), ("a", 0)] ∧ w.backlog = [] := by decide +kernel
+
+/-- … whereas after `resume` x is created exactly once (`backlog_restored_once`) -/
+example : let w := stepX bSpec bPaused .resume
+    w.wf = .RUNNING ∧ ids w = [("b", 0), ("a", 0), ("x", 0)] ∧ w.backlog = [] := by decide +kernel
+
 end Mistral.Props.C11X
